@@ -806,8 +806,8 @@ func (g *G) Program() *Node {
 	ps = append(ps, tn(open), tg("", GapNeedWS))
 	nStmts := g.R.Range(1, g.O.MaxStmts)
 	nsMode := g.R.Intn(6) // 0: semicolon namespaces, 1: braced namespaces, else none
-	if g.O.Formatter {
-		nsMode = 5
+	if g.O.Formatter && nsMode == 1 {
+		nsMode = 5 // braced namespaces are a recorded formatter finding
 	}
 	for i := 0; i < nStmts; i++ {
 		var s *Node
